@@ -145,6 +145,7 @@ type FuncCtx struct {
 	errConsts map[string]int
 	callCount map[string]int // callee name -> number of call sites seen (for at call #i)
 	clauseHit map[*Clause]int
+	afterHit  map[*AtCall]int
 	edgePCs   map[edgeKey]string
 	compSorts map[string]string
 	deferRecs map[deferKey]*deferRec
@@ -152,6 +153,8 @@ type FuncCtx struct {
 	freshRefs map[string]bool
 	guardMode bool
 	recSelf   string
+	cellPrefixes map[string]bool
+	havocArgTypes []string // pointee type keys of pointer arguments of the call being havocked
 	boxed     map[string]string // interface term | dynamic type -> payload term (for unbox(box(x)) = x at generation time)
 	entryLocksSymbolic bool
 }
@@ -652,7 +655,7 @@ func typeKey(t types.Type) string {
 func (fc *FuncCtx) compTerm(st *State, key, sort string) string {
 	fc.compSorts[key] = sort
 	if !strings.HasPrefix(key, "L!") && !strings.HasPrefix(key, "GI!") {
-		vol := st.volatileAll && !strings.HasPrefix(key, "CH!") && !fc.eng.monitorProtected(key)
+		vol := st.volatileAll && !strings.HasPrefix(key, "CH!") && !strings.HasPrefix(key, "ONCE!") && !fc.eng.monitorProtected(key) && !fc.isCellKey(key)
 		for _, m := range st.volatile {
 			if m(key) {
 				vol = true
@@ -837,7 +840,21 @@ func (fc *FuncCtx) objPlace(ref string, t types.Type) PlaceV {
 	if _, ok := t.Underlying().(*types.Array); ok {
 		return PlaceV{Kind: "obj", Prefix: "A!", Idx: []string{ref}, IdxSorts: []string{"Int"}, Root: t, Typ: t, RefTerm: ref}
 	}
+	if _, isSt := t.Underlying().(*types.Struct); !isSt || !flatStruct(t) {
+		// a cell holding a non-struct value (an escaping or captured variable): only code that is handed its
+		// address can write it
+		fc.cellPrefixes["O!"+typeKey(t)] = true
+	}
 	return PlaceV{Kind: "obj", Prefix: "O!" + typeKey(t), Idx: []string{ref}, IdxSorts: []string{"Int"}, Root: t, Typ: t, RefTerm: ref}
+}
+
+func (fc *FuncCtx) isCellKey(key string) bool {
+	for p := range fc.cellPrefixes {
+		if key == p || strings.HasPrefix(key, p+".") {
+			return true
+		}
+	}
+	return false
 }
 
 func pathStr(p []string) string {
@@ -886,8 +903,22 @@ func (fc *FuncCtx) storePlace(st *State, p PlaceV, v Value) {
 		st.locals[p.Local] = fc.setPath(cur, p.Root, p.Path, v)
 		return
 	case "obj", "elem", "cell":
-		if _, isArr := p.Typ.Underlying().(*types.Array); isArr && p.Prefix == "A!" {
-			fc.unsupported("whole-array store")
+		if at, isArr := p.Typ.Underlying().(*types.Array); isArr && p.Prefix == "A!" {
+			// storing an array value as a whole: the element row becomes some row whose packed value is v
+			sc, ok := v.(Scalar)
+			if !ok {
+				fc.unsupported("whole-array store of %T", v)
+			}
+			srt := fc.sortOf(at.Elem())
+			key := "E!" + typeKey(at.Elem())
+			full := arraySort([]string{"Int", fc.intSort()}, srt)
+			cur := fc.compTerm(st, key, full)
+			row := fc.u.fresh("arrrow", "(Array "+fc.intSort()+" "+srt+")")
+			fn := qsym(fmt.Sprintf("arrpack!%d!%s", at.Len(), typeKey(at.Elem())))
+			fc.u.declare(fn, "(declare-fun "+fn+" ((Array "+fc.intSort()+" "+srt+")) Int)")
+			fc.u.fact(st.pc, "(= ("+fn+" "+row+") "+sc.T+")")
+			fc.setComp(st, key, full, "(store "+cur+" "+p.RefTerm+" "+row+")")
+			return
 		}
 		fc.storeAt(st, p.Prefix, p.Idx, p.IdxSorts, pathStr(p.Path), p.Typ, v)
 		return
@@ -1004,14 +1035,43 @@ func (fc *FuncCtx) newEpoch() int {
 
 // havocAll forgets every mutable heap component (used for calls without a frame).
 func (fc *FuncCtx) havocAll(st *State) {
+	// channel ghost state (CH!*) is kept: code without a contract is assumed not to operate on channels of this
+	// repository behind the caller's back (in-repo callees contribute their channel operations through their
+	// inferred write sets, see applyModSet); lock state is ours.
+	fc.u.Assumptions["calls without a contract do not send on, receive from or close channels of this repository other than through in-repo code whose channel operations are accounted for"] = true
+	for _, k := range []string{"CH!cap", "CH!sends", "CH!recvs", "CH!closes"} {
+		fc.compTerm(st, k, "(Array Int Int)")
+	}
+	fc.compTerm(st, "CH!closed", "(Array Int Bool)")
 	st.epoch = fc.newEpoch()
 	st.pendingHavoc = nil
+	var keepCells []string
 	for k := range st.heap {
-		if strings.HasPrefix(k, "L!") { // lock state is ours
+		if strings.HasPrefix(k, "L!") || strings.HasPrefix(k, "CH!") || strings.HasPrefix(k, "ONCE!") {
+			continue
+		}
+		if fc.isCellKey(k) && !fc.cellPassed(k) {
+			// variables of this function (escaping / captured cells) whose address was not handed to the callee
+			keepCells = append(keepCells, k)
 			continue
 		}
 		delete(st.heap, k)
 	}
+	if len(keepCells) > 0 {
+		fc.u.Assumptions["code without a contract cannot write a local (escaping or captured) variable unless it is handed a pointer of that variable's type"] = true
+	}
+	// cells not yet materialised keep their identity as well: materialise lazily under the old epoch is impossible,
+	// so unmaterialised cells simply get the new epoch (they carry no information yet)
+}
+
+func (fc *FuncCtx) cellPassed(key string) bool {
+	for _, t := range fc.havocArgTypes {
+		p := "O!" + t
+		if key == p || strings.HasPrefix(key, p+".") {
+			return true
+		}
+	}
+	return false
 }
 
 // havocKeys forgets the components selected by match. If frame != "" (a term for the allocation
